@@ -175,6 +175,14 @@ func c14Worker(c *core.Collector, x *Ctx) {
 				}
 				feed(b, hb(7))
 			}
+			if variant != 3 {
+				// the message is complete (or replaced by a complete one): quiet for 5.6 s, inbound data, 5.6 s again, inbound
+				// data — nothing is missing any more, so nothing is asked for
+				age(b, 5600)
+				feed(b, hb(40))
+				age(b, 5600)
+				feed(b, hb(41))
+			}
 			run(fmt.Sprintf("subset variant=%d", variant), b)
 		}
 	})
